@@ -82,7 +82,7 @@ impl Prop for C14 {
             cov.hit("clock_step_between_sync_ops");
         }
         cov.sim_ns += prog.clock_step_ms.unwrap_or(0) * MS;
-        execute_sched(self.id(), scenario, 30_000, cov, move |obs: Obs| body(epoch_ns, &prog, obs))
+        execute_sched(self.id(), "", scenario, 30_000, cov, move |obs: Obs| body(epoch_ns, &prog, obs))
     }
 
     fn shrink(&self, scenario: &Value) -> Vec<Value> {
